@@ -437,6 +437,12 @@ func (m *Model) valid(sn any, v any, p Pos) Verdict {
 		}
 	}
 	if all, ok := s["allOf"].([]any); ok {
+		if m.dev("RECURSIVE_ALLOF_UNROLLED_THEN_ANY") && m.cyclicCount(all, p) >= 3 {
+			// as built: a member that refers back to a definition under generation is expanded (merged and generated anew) until the
+			// same schema node is met for the third time, where the position becomes interface{}
+			m.fire("RECURSIVE_ALLOF_UNROLLED_THEN_ANY")
+			return res
+		}
 		if m.dev("ALLOF_MERGE_MUTATES_SHARED_DEFINITION") && len(all) > 0 {
 			all = m.leakInto(all, p.File)
 		}
@@ -1518,6 +1524,32 @@ func (m *Model) cyclicBranch(branches []any, p Pos) bool {
 		}
 	}
 	return false
+}
+
+// cyclicCount: how often the definition a $ref branch names already encloses this node (0 = no cycle).
+func (m *Model) cyclicCount(branches []any, p Pos) int {
+	best := 0
+	for _, b := range branches {
+		bm, _ := b.(map[string]any)
+		ref, ok := bm["$ref"].(string)
+		if !ok {
+			continue
+		}
+		if i := strings.IndexByte(ref, '#'); i > 0 {
+			continue // cross-file cycles are not modelled
+		}
+		key := p.File + "|" + ref
+		n := 0
+		for _, d := range p.DefStack {
+			if d == key {
+				n++
+			}
+		}
+		if n > best {
+			best = n
+		}
+	}
+	return best
 }
 
 // enumListsZero: the members are all of one primitive kind (the enum is carried by string / a number type / bool, not by the
